@@ -30,7 +30,14 @@ type RedactableString string
 // RedactableString. This returns an unsafe string where all safe and
 // unsafe bits are mixed together.
 func (s RedactableString) StripMarkers() string {
-	return ReStripMarkers.ReplaceAllString(string(s), "")
+	r := ReStripMarkers.ReplaceAllString(string(s), "")
+	// In a string that is not well-formed, a marker can sit between
+	// the two parts of another, truncated one: removing it puts a new
+	// marker together. No marker must be left.
+	for ReStripMarkers.MatchString(r) {
+		r = ReStripMarkers.ReplaceAllString(r, "")
+	}
+	return r
 }
 
 // Redact replaces all occurrences of unsafe substrings by the
@@ -62,7 +69,12 @@ type RedactableBytes []byte
 // RedactableBytes. This returns an unsafe string where all safe and
 // unsafe bits are mixed together.
 func (s RedactableBytes) StripMarkers() []byte {
-	return ReStripMarkers.ReplaceAll([]byte(s), nil)
+	r := ReStripMarkers.ReplaceAll([]byte(s), nil)
+	// See RedactableString.StripMarkers.
+	for ReStripMarkers.Match(r) {
+		r = ReStripMarkers.ReplaceAll(r, nil)
+	}
+	return r
 }
 
 // Redact replaces all occurrences of unsafe substrings by the
